@@ -64,6 +64,23 @@ def _calls_named(fnode, suffixes):
     return out
 
 
+def _protocol_func(m, f):
+    """The function that carries the cache protocol of entry point `f`: `f` itself when it calls get_cached_module and _compile_objects,
+    otherwise the one module-level helper it calls that does (both entry points delegating to a shared helper)."""
+    def has_both(fn):
+        return bool(_calls_named(fn.node, ["get_cached_module"])) and bool(_calls_named(fn.node, ["_compile_objects"]))
+    if has_both(f):
+        return f
+    cands = []
+    for c in calls_in(f.node):
+        h = m.funcs.get(call_name(c) or "")
+        if h is not None and h is not f and has_both(h) and h not in cands:
+            cands.append(h)
+    if len(cands) == 1:
+        return cands[0]
+    return f
+
+
 def _is_lock_path(sl: Slicer, expr) -> bool:
     """expr derives from a module-name based path ending in '.c' (and not '.c.cached'/.failed)."""
     consts = {c for c in sl.constants(expr) if isinstance(c, str)}
@@ -400,6 +417,8 @@ def lock_proto(repo, res):
     for fname in ("compile_forms", "compile_expressions"):
         f = m.func(fname)
         res.functions.add(f.key)
+        f = _protocol_func(m, f)
+        res.functions.add(f.key)
         fcfg = CFG(f.node)
         gcalls = _calls_named(f.node, ["get_cached_module"])
         bcalls = _calls_named(f.node, ["_compile_objects"])
@@ -478,8 +497,12 @@ def fail_release(repo, res):
     for fname in ("compile_forms", "compile_expressions"):
         f = m.func(fname)
         res.functions.add(f.key)
+        f = _protocol_func(m, f)
+        res.functions.add(f.key)
         cfg = CFG(f.node, PURE)
         sl = Slicer(f.node)
+        if not _calls_named(f.node, ["get_cached_module"]) or not _calls_named(f.node, ["_compile_objects"]):
+            raise AnalysisError(f"FAIL-RELEASE: {fname}: no function calling both get_cached_module and _compile_objects found")
         g = _node_of(cfg, _calls_named(f.node, ["get_cached_module"])[0], "get_cached_module")
         b = _node_of(cfg, _calls_named(f.node, ["_compile_objects"])[0], "_compile_objects")
         renames = []
